@@ -49,6 +49,10 @@ LastForged(g) ==
   LET hs == {chain[i].h : i \in {j \in 1..Len(chain) : chain[j].gen = g}} IN
   IF hs = {} THEN 0 ELSE CHOOSE x \in hs : \A y \in hs : y <= x
 
+SecondLastForged(g) ==
+  LET hs == {chain[i].h : i \in {j \in 1..Len(chain) : chain[j].gen = g}} \ {LastForged(g)} IN
+  IF hs = {} THEN 0 ELSE CHOOSE x \in hs : \A y \in hs : y <= x
+
 Active(votes, h) == {v \in Validators : ParamsAt(votes.params, h).w[v] > 0}
 RECURSIVE WeightOf(_, _)
 WeightOf(S, w) == IF S = {} THEN 0 ELSE LET x == CHOOSE y \in S : TRUE IN w[x] + WeightOf(S \ {x}, w)
@@ -116,6 +120,9 @@ Mutate(c, m) ==
     [] m = "sig-stale-stateroot" -> [c EXCEPT !.sig = "stale-stateroot", !.mut = m]
     [] m = "mhp+1"            -> [c EXCEPT !.mhp = @ + 1, !.mut = m]
     [] m = "mhg-zero"         -> [c EXCEPT !.mhg = 0, !.mut = m]
+    \* the claim stops at the generator's second-latest own block: it denies the latest one (a contradiction that a
+    \* comparison with an OLDER own header in the window does not see)
+    [] m = "mhg-deny-latest"  -> (IF SecondLastForged(c.gen) > 0 THEN [c EXCEPT !.mhg = SecondLastForged(c.gen), !.mut = m] ELSE c)
     [] m = "mhg-noclaim"      -> [c EXCEPT !.mhg = c.h, !.mut = m]
     [] m = "ac-height-stale"  -> [c EXCEPT !.ac = [h |-> V.cert, kind |-> "valid", signers |-> Active(V, Max2(V.cert, 1))], !.mut = m]
     [] m = "ac-beyond-precommit" -> [c EXCEPT !.ac = [h |-> V.mhpc + 1, kind |-> "valid", signers |-> Active(V, V.mhpc + 1)], !.mut = m]
